@@ -101,6 +101,7 @@ class Profile:
     n_timers_max = 3
     aim_due = 0.5
     user_logger = 0.5
+    p_bound = 0.12                   # the callback is a bound method of an object whose repr shows the scheduler
 
 
 def gen_cfg(r, P, aware, now, kind=None, for_once=False):
@@ -134,6 +135,7 @@ def gen_cfg(r, P, aware, now, kind=None, for_once=False):
         c["args"] = [r.randrange(100) for _ in range(r.randrange(1, 3))]
     if r.random() < 0.3:
         c["kwargs"] = [(k, r.randrange(100)) for k in sorted(r.sample(range(6), r.randrange(1, 3)))]
+    c["bound"] = r.random() < P.p_bound
     if for_once:
         c["tagkind"] = r.choice(["set", "set", "frozenset", "list", "tuple", "gen", "keys", "none"])
         if c["tagkind"] == "none":
